@@ -15,10 +15,12 @@ import ast
 
 from ..absim import Bound, V, _NO, simp
 from ..loader import AnalysisError, Program, norm, walk_no_nested
+from ..normalize import flat
 from ..report import Ledger
 from ..sym import DIFFERENT, EQUAL, UNDECIDED, Translator, Unsupported, Vocabulary, same, sp
 from ..trial import MoveSpec, Scenario
 
+_MASS_FORMS = tuple(f"{a}.{g}{sl}" for a in ("atoms", "context.atoms") for g in ("get_masses()",) for sl in ("[:, None]", "[:, np.newaxis]", ".reshape(-1, 1)", "[..., None]"))
 Ffun = sp.Function("F")
 Con = sp.Function("ConstrainPositions")
 ConM = sp.Function("ConstrainMomenta")
@@ -109,6 +111,9 @@ def verlet_constrained(prog: Program, L: Ledger, rule: str) -> None:
     constrained displacement and both writes are constraint-aware."""
     ver = prog.cls("Verlet")
     integ = ver.methods.get("integrate")
+    if integ is None:
+        raise AnalysisError("Verlet.integrate missing")
+    integ = flat(prog, integ, ver)
     loops = [s for s in integ.body() if isinstance(s, ast.For)]
     if len(loops) != 1:
         raise AnalysisError("Verlet.integrate: expected one loop")
@@ -116,7 +121,7 @@ def verlet_constrained(prog: Program, L: Ledger, rule: str) -> None:
     pre = integ.body()[: integ.body().index(loop)]
     x, p, m, dt = sp.Symbol("x", real=True), sp.Symbol("p", real=True), sp.Symbol("m", positive=True), sp.Symbol("dt", positive=True)
     # constrained branch: half-step momentum recomputed from the constrained displacement
-    vocab = Vocabulary({"self.dt": ("dt", {"positive": True}), "atoms.get_masses()[:, None]": ("m", {"positive": True})})
+    vocab = Vocabulary({"self.dt": ("dt", {"positive": True}), **{k: ("m", {"positive": True}) for k in _MASS_FORMS}})
     vocab.symbols.update({"dt": dt, "m": m})
     vocab.bind("self.apply_constraints", sp.true)
     st = AtomsState(x, p)
@@ -151,6 +156,7 @@ def run(prog: Program, L: Ledger) -> None:
     integ = ver.methods.get("integrate")
     if integ is None:
         raise AnalysisError("Verlet.integrate missing")
+    integ = flat(prog, integ, ver)
     loops = [s for s in integ.body() if isinstance(s, ast.For)]
     if len(loops) != 1 or norm(loops[0].iter) != "range(self.max_steps)":
         raise AnalysisError("Verlet.integrate: expected one loop over range(self.max_steps)")
@@ -165,7 +171,7 @@ def run(prog: Program, L: Ledger) -> None:
         return x1, p1
 
     for iters in (1, 2):
-        vocab = Vocabulary({"self.dt": ("dt", {"positive": True}), "atoms.get_masses()[:, None]": ("m", {"positive": True}), "context.atoms.get_masses()[:, None]": ("m", {"positive": True})})
+        vocab = Vocabulary({"self.dt": ("dt", {"positive": True}), **{k: ("m", {"positive": True}) for k in _MASS_FORMS}})
         vocab.symbols.update({"dt": dt, "m": m})
         vocab.bind("self.apply_constraints", sp.false)
         st = AtomsState(x, p)
